@@ -35,7 +35,7 @@ use std::{
     time::Duration,
 };
 
-pub use crate::protocol::connection::Permit as VerifPermit;
+pub use crate::protocol::connection::{Permit as VerifPermit, VerifAliveProbe};
 
 /// A strong sender of a connection's command channel held by "someone else" (another protocol).
 pub struct VerifStrong(#[allow(dead_code)] Sender<ProtocolCommand>);
@@ -135,6 +135,16 @@ type ParkedYamux = (
 
 impl VerifService {
     pub fn new(keep_alive_timeout: Duration, keep_alive: bool, first_substream_id: usize) -> Self {
+        Self::new_with_capacity(keep_alive_timeout, keep_alive, first_substream_id, crate::DEFAULT_CHANNEL_SIZE)
+    }
+
+    /// The same with an event channel (ProtocolSet -> TransportService) of the given capacity.
+    pub fn new_with_capacity(
+        keep_alive_timeout: Duration,
+        keep_alive: bool,
+        first_substream_id: usize,
+        capacity: usize,
+    ) -> Self {
         let (cmd_tx, _cmd_rx) = channel(64);
         let local = PeerId::random();
         let handle = TransportManagerHandle::new(
@@ -153,7 +163,7 @@ impl VerifService {
         } else {
             SubstreamKeepAlive::No
         };
-        let (service, tx) = TransportService::new(
+        let (service, tx) = TransportService::verif_new_with_capacity(
             local,
             protocol.clone(),
             vec![fallback.clone()],
@@ -161,6 +171,7 @@ impl VerifService {
             handle,
             keep_alive_timeout,
             keep_alive,
+            capacity,
         );
         VerifService {
             service,
@@ -172,6 +183,45 @@ impl VerifService {
             _cmd_rx,
             parked: parking_lot::Mutex::new(Vec::new()),
         }
+    }
+
+    /// The entry of this protocol in a connection's protocol table (what the transport manager
+    /// hands to `ProtocolSet::new`): its names, keep-alive flag and the sender of ITS event channel.
+    pub fn protocol_entry(&self) -> (ProtocolName, crate::transport::manager::ProtocolContext) {
+        (
+            self.protocol.clone(),
+            crate::transport::manager::ProtocolContext {
+                codec: ProtocolCodec::Identity(32),
+                tx: self.tx.clone(),
+                fallback_names: vec![self.fallback.clone()],
+                keep_alive: self.keep_alive,
+            },
+        )
+    }
+
+    /// Name of the fallback protocol (a substream negotiated under it is not keep-alive activity).
+    pub fn fallback_name(&self) -> ProtocolName {
+        self.fallback.clone()
+    }
+
+    /// Events queued in the service's event channel.
+    pub fn queued_events(&self) -> usize {
+        self.tx.max_capacity() - self.tx.capacity()
+    }
+
+    /// A substream object as `tcp/connection.rs` builds it (real `tcp::Substream` over a stream of
+    /// a parked yamux connection) holding the given lifetime permit.
+    pub fn make_substream(&self, peer: PeerId, substream_id: usize, lifetime_permit: Option<Permit>) -> Substream {
+        Substream::new_tcp(
+            peer,
+            SubstreamId::from(substream_id),
+            crate::transport::tcp::Substream::new(
+                self.parked_yamux_stream(),
+                crate::bandwidth::BandwidthSink::new(),
+                lifetime_permit,
+            ),
+            ProtocolCodec::Unspecified,
+        )
     }
 
     /// Other services draw `n` ids from the shared counter.
